@@ -3,7 +3,7 @@
 CONFIG = {
     "id": "X40",
     "coq_dirs": ["theories/Nfs40"],
-    "coq_targets": ["theories/Nfs40/PropertiesC18.vo", "theories/Nfs40/PropertiesC19.vo", "theories/Nfs40/PropertiesC20.vo", "theories/Nfs40/Corr.vo"],
+    "coq_targets": ["theories/Nfs40/PropertiesC18.vo", "theories/Nfs40/PropertiesC19.vo", "theories/Nfs40/PropertiesC20.vo", "theories/Nfs40/Examples.vo", "theories/Nfs40/Corr.vo"],
     "properties_files": ["theories/Nfs40/PropertiesC18.v", "theories/Nfs40/PropertiesC19.v", "theories/Nfs40/PropertiesC20.v"],
     "required_theorems": [],
     "harnesses": [
